@@ -51,7 +51,7 @@ def one(seed):
             res["apply_error"] = out[-300:]
             return res
         demo = os.path.join(d, "demo.py")
-        if seed.startswith(("B-", "B3-", "B4-", "B5-", "B6-", "B7-", "B8-", "B9-", "B10-", "benign-")):
+        if seed.startswith(("B-", "B3-", "B4-", "B5-", "B6-", "B7-", "B8-", "B9-", "B10-", "B11-", "benign-")):
             rc, out = sh(f"{PY} -m pytest -q -p no:cacheprovider -x --timeout=900 {scratch}/tests", cwd=scratch, env={"PYTHONPATH": f"{scratch}/src"})
             res["tests_pass_with_change"] = rc == 0
         if os.path.exists(demo):
@@ -108,9 +108,9 @@ def main():
                 meta = {}
         if seed.startswith("regress"):
             target = open(os.path.join(d, "props.txt")).read().strip()
-        elif seed.startswith(("r2-", "r3-", "r4-", "r5-", "r6-", "r7-", "r8-", "r9-", "r10-")):
+        elif seed.startswith(("r2-", "r3-", "r4-", "r5-", "r6-", "r7-", "r8-", "r9-", "r10-", "r11-")):
             target = seed.split("-")[1]
-        elif seed.startswith(("B-", "B3-", "B4-", "B5-", "B6-", "B7-", "B8-", "B9-", "B10-", "benign-")):
+        elif seed.startswith(("B-", "B3-", "B4-", "B5-", "B6-", "B7-", "B8-", "B9-", "B10-", "B11-", "benign-")):
             target = "none (behaviour-preserving)"
         else:
             target = seed.split("-")[0]
@@ -136,7 +136,7 @@ def main():
             "demo_passes_without_change": r.get("demo_passes_without_change"),
             "detected_by": detected,
             "analysis_errors": errors,
-            "confirmed": bool(r.get("applies")) and (seed.startswith("regress") or (seed.startswith(("B-", "B3-", "B4-", "B5-", "B6-", "B7-", "B8-", "B9-", "B10-", "benign-")) and r.get("tests_pass_with_change", True)) or (r.get("tests_pass_with_change") and r.get("demo_fails_with_change") and r.get("demo_passes_without_change"))),
+            "confirmed": bool(r.get("applies")) and (seed.startswith("regress") or (seed.startswith(("B-", "B3-", "B4-", "B5-", "B6-", "B7-", "B8-", "B9-", "B10-", "B11-", "benign-")) and r.get("tests_pass_with_change", True)) or (r.get("tests_pass_with_change") and r.get("demo_fails_with_change") and r.get("demo_passes_without_change"))),
         })
         json.dump(meta, open(meta_path, "w"), indent=1)
         rows.append(meta)
